@@ -3,7 +3,7 @@
 d=$(mktemp -d /tmp/verif-prove-XXXXXX)
 rc=0
 cp /verif/spec/*.tla $d/; rm -f $d/TLAPS.tla
-for m in CleanWriteN DecodeHistoryProof DataStreamProof SelectionProof "$@"; do
+for m in CleanWriteN DecodeHistoryProof DataStreamProof SelectionProof DeleteLoopProof "$@"; do
   out=$(cd $d && timeout 900 tlapm $m.tla 2>&1 | grep -E "obligations|ERROR" | head -5)
   echo "$m: $out"
   echo "$out" | grep -q "All [0-9]* obligations proved" || rc=1
